@@ -5,7 +5,9 @@ import Bng.Model.SubMgr
   only ever the session's OWN address, and ends the session exactly once.
 
   Theorems over Bng/Model/SubMgr.lean for ALL operation sequences, where a concurrent TerminateSession is
-  the pair `tbegin tag n … tresume tag` with arbitrary operations of other callers in between.
+  the pair `tbegin tag n … tresume tag` with arbitrary operations of other callers in between, and a concurrent
+  AssignAddress is the pair `abegin tag n … aresume tag` (the call is held inside the allocator call, between its two
+  critical sections), again with arbitrary operations — terminations included — in the window.
 -/
 namespace Bng.Spec.C16SubMgr
 open Bng Bng.SubMgr AMap
@@ -79,70 +81,90 @@ theorem inv_create {s : M} (hI : Inv s) (n mac : Nat) : Inv (create s n mac).1 :
         · rename_i e; subst e; exact he
         · exact hI.live n' x h
 
-theorem inv_assign {s : M} (hI : Inv s) (n : Nat) (hno : hasAddr s n = false) : Inv (assign s n).1 := by
+theorem inv_bounce {s : M} (hI : Inv s) (a : Nat) : Inv (bounce s a) := by
+  refine ⟨hI.own, hI.parked, hI.one, hI.live, hI.once, ?_, hI.owned⟩
+  intro b
+  have := hI.bal b
+  show count (bump s.rel a) b + (if (AMap.lookup s.owner b).isSome then 1 else 0) ≤ count (bump s.allocs a) b
+  rw [count_bump, count_bump]
+  by_cases e : b = a
+  · simp only [e, if_true] at this ⊢; omega
+  · simp only [e, if_false]; exact this
+
+theorem inv_assignLate {s : M} (hI : Inv s) (n : Nat) (hno : reassigns s n = false) : Inv (assignLate s n).1 := by
+  unfold assignLate
+  split
+  · exact hI
+  · rename_i a hf
+    have hfree := firstFree_spec hf
+    split
+    · exact inv_bounce hI a
+    · rename_i x hx
+      split
+      · exact inv_bounce hI a
+      · rename_i hterm
+        have hxip : x.ip = none := by
+          unfold reassigns at hno; rw [hx] at hno
+          cases e : x.ip <;> simp [e, hterm] at hno ⊢
+        -- no call can be parked for a session without an address
+        have hnopark : ∀ t b, AMap.lookup s.calls t ≠ some (n, b) := by
+          intro t b h
+          obtain ⟨y, hy, _, hip⟩ := hI.parked t n b h
+          rw [hx] at hy; simp only [Option.some.injEq] at hy; subst hy
+          rw [hxip] at hip; simp at hip
+        refine ⟨?_, ?_, hI.one, ?_, hI.once, ?_, ?_⟩
+        · intro n' y b h hip
+          simp only [lookup_insert] at h ⊢
+          split at h
+          · rename_i e
+            simp only [Option.some.injEq] at h; subst h
+            simp only at hip
+            simp only [Option.some.injEq] at hip; subst hip; subst e; simp
+          · rename_i e
+            have := hI.own n' y b h hip
+            split
+            · rename_i e2; subst e2; rw [hfree] at this; simp at this
+            · exact this
+        · intro tag n' b h
+          obtain ⟨y, hy, ht, hip⟩ := hI.parked tag n' b h
+          have hne : n' ≠ n := by intro e; subst e; exact hnopark tag b h
+          exact ⟨y, by simp [lookup_insert, hne, hy], ht, hip⟩
+        · intro n' y h
+          simp only [lookup_insert] at h
+          split at h
+          · rename_i e; subst e; exact hI.live _ x hx
+          · exact hI.live n' y h
+        · intro b
+          have := hI.bal b
+          simp only [lookup_insert]
+          rw [count_bump]
+          by_cases e : b = a
+          · subst e
+            simp only [if_true, Option.isSome_some]
+            rw [hfree] at this
+            simp at this
+            omega
+          · simp only [e, if_false]; exact this
+        · intro b n' h
+          simp only [lookup_insert] at h ⊢
+          split at h
+          · rename_i e
+            simp only [Option.some.injEq] at h; subst h; subst e
+            exact ⟨{ x with ip := some b }, by simp, rfl⟩
+          · rename_i e
+            obtain ⟨y, hy, hip⟩ := hI.owned b n' h
+            by_cases e2 : n' = n
+            · subst e2
+              rw [hx] at hy; simp only [Option.some.injEq] at hy; subst hy
+              rw [hxip] at hip; simp at hip
+            · exact ⟨y, by simp [e2, hy], hip⟩
+
+
+theorem inv_assign {s : M} (hI : Inv s) (n : Nat) (hno : reassigns s n = false) : Inv (assign s n).1 := by
   unfold assign
   split
   · exact hI
-  · rename_i x hx
-    have hxip : x.ip = none := by
-      unfold hasAddr at hno; rw [hx] at hno
-      cases e : x.ip <;> simp [e] at hno ⊢
-    -- no call can be parked for a session without an address
-    have hnopark : ∀ t b, AMap.lookup s.calls t ≠ some (n, b) := by
-      intro t b h
-      obtain ⟨y, hy, _, hip⟩ := hI.parked t n b h
-      rw [hx] at hy; simp only [Option.some.injEq] at hy; subst hy
-      rw [hxip] at hip; simp at hip
-    split
-    · exact hI
-    · rename_i a hf
-      have hfree := firstFree_spec hf
-      refine ⟨?_, ?_, hI.one, ?_, hI.once, ?_, ?_⟩
-      · intro n' y b h hip
-        simp only [lookup_insert] at h ⊢
-        split at h
-        · rename_i e
-          simp only [Option.some.injEq] at h; subst h
-          simp only at hip
-          simp only [Option.some.injEq] at hip; subst hip; subst e; simp
-        · rename_i e
-          have := hI.own n' y b h hip
-          split
-          · rename_i e2; subst e2; rw [hfree] at this; simp at this
-          · exact this
-      · intro tag n' b h
-        obtain ⟨y, hy, ht, hip⟩ := hI.parked tag n' b h
-        have hne : n' ≠ n := by intro e; subst e; exact hnopark tag b h
-        exact ⟨y, by simp [lookup_insert, hne, hy], ht, hip⟩
-      · intro n' y h
-        simp only [lookup_insert] at h
-        split at h
-        · rename_i e; subst e; exact hI.live _ x hx
-        · exact hI.live n' y h
-      · intro b
-        have := hI.bal b
-        simp only [lookup_insert]
-        rw [count_bump]
-        by_cases e : b = a
-        · subst e
-          simp only [if_true, Option.isSome_some]
-          rw [hfree] at this
-          simp at this
-          omega
-        · simp only [e, if_false]; exact this
-      · intro b n' h
-        simp only [lookup_insert] at h ⊢
-        split at h
-        · rename_i e
-          simp only [Option.some.injEq] at h; subst h; subst e
-          exact ⟨{ x with ip := some b }, by simp, rfl⟩
-        · rename_i e
-          obtain ⟨y, hy, hip⟩ := hI.owned b n' h
-          by_cases e2 : n' = n
-          · subst e2
-            rw [hx] at hy; simp only [Option.some.injEq] at hy; subst hy
-            rw [hxip] at hip; simp at hip
-          · exact ⟨y, by simp [e2, hy], hip⟩
+  · exact inv_assignLate hI n hno
 
 /-- the state after `tBegin` (the session is marked Terminating) -/
 theorem inv_tBegin {s s1 : M} {x : Sess} (hI : Inv s) {n : Nat} (h : tBegin s n = .ok (s1, x)) :
@@ -292,7 +314,8 @@ theorem inv_mark {s : M} (hI : Inv s) {n : Nat} {x : Sess} (hx : AMap.lookup s.s
 
 /-- the side condition of `Valid` for one operation -/
 def okOp (s : M) : Op → Prop
-  | .assign n => hasAddr s n = false
+  | .assign n => reassigns s n = false
+  | .aresume tag => ∀ n, AMap.lookup s.acalls tag = some n → reassigns s n = false
   | _ => True
 
 theorem inv_step {s : M} (hI : Inv s) (op : Op) (hok : okOp s op) : Inv (step s op).1 := by
@@ -300,6 +323,21 @@ theorem inv_step {s : M} (hI : Inv s) (op : Op) (hok : okOp s op) : Inv (step s 
   | create n mac => exact inv_create hI n mac
   | assign n => exact inv_assign hI n hok
   | touch n => simp only [step]; split <;> exact hI
+  | abegin tag n =>
+    simp only [step]
+    split
+    · exact hI
+    · split
+      · exact hI
+      · exact ⟨hI.own, hI.parked, hI.one, hI.live, hI.once, hI.bal, hI.owned⟩
+  | aresume tag =>
+    simp only [step]
+    split
+    · exact hI
+    · rename_i n hc
+      have hI0 : Inv { s with acalls := AMap.erase s.acalls tag } :=
+        ⟨hI.own, hI.parked, hI.one, hI.live, hI.once, hI.bal, hI.owned⟩
+      exact inv_assignLate hI0 n (hok n hc)
   | term n =>
     simp only [step]
     split
@@ -420,8 +458,9 @@ theorem inv_run {s : M} (hI : Inv s) (ops : List Op) (hv : Valid s ops) : Inv (r
 /-! ## property theorems
 
 All of them are `_partial` in one respect: they quantify over the histories `Valid init ops`, in which
-AssignAddress is only called on a session that holds no address yet.  The complement is exactly the two
-recorded findings (witness theorems at the end). -/
+AssignAddress never hands a second address to a LIVE session that holds one (judged when the allocator call returns).
+The complement is exactly the recorded finding KF-submgr-reassign-leak (witness theorem at the end); assignments racing
+a termination, in either order and at either unlock window, are inside `Valid`. -/
 
 /-- **A session ends exactly once**, whatever interleaving of terminations is applied. -/
 theorem ended_at_most_once_partial (ops : List Op) (hv : Valid init ops) (n : Nat) :
@@ -486,7 +525,7 @@ theorem concurrent_terminate_refused_partial (ops : List Op) (hv : Valid init op
   · rfl
   · simp [tBegin, hx, ht]
 
-/-! ### the two recorded findings, proved on the model -/
+/-! ### the recorded finding, proved on the model -/
 
 /-- KF-submgr-reassign-leak: a second AssignAddress gives the session a second address; when the session
     ends only the latest one is released — the first stays recorded as handed to a session that no longer exists. -/
@@ -499,18 +538,47 @@ theorem KF_submgr_reassign_leak_witness :
   have := h.2.2.1
   revert this; decide
 
-/-- KF-submgr-assign-race: an AssignAddress while the session's termination is parked at the allocator
-    strands the new address (the session is deleted when the termination finishes; the address stays handed out).
-    Since fix ac0cfa4 the termination mark is a flag of its own, so a second TerminateSession is still refused. -/
-theorem KF_submgr_assign_race_witness :
+/-! ### assignments racing a termination (fixed: the former finding KF-submgr-assign-race and its mirror image) -/
+
+/-- **An AssignAddress whose allocator call returns after the session was terminated (or while its termination is in
+    progress) strands nothing**: from ANY state, the held call reports failure and leaves the allocator's hand-outs,
+    the session table and the address index exactly as they were — the address it was given went straight back. -/
+theorem late_assign_strands_nothing (s : M) (tag n : Nat) (hc : AMap.lookup s.acalls tag = some n)
+    (hgone : AMap.lookup s.sessions n = none ∨ ∃ x, AMap.lookup s.sessions n = some x ∧ x.terminating = true) :
+    (step s (.aresume tag)).1.owner = s.owner ∧ (step s (.aresume tag)).1.sessions = s.sessions ∧
+    (step s (.aresume tag)).1.byIp = s.byIp ∧
+    ((step s (.aresume tag)).2 = .gone ∨ (step s (.aresume tag)).2 = .exhausted) := by
+  simp only [step, hc, assignLate]
+  cases hf : firstFree s.owner with
+  | none => simp
+  | some a =>
+    rcases hgone with h | ⟨x, hx, ht⟩
+    · simp [h, bounce]
+    · simp [hx, ht, bounce]
+
+/-- the same for a whole AssignAddress call issued while the session's termination is parked at the allocator -/
+theorem assign_during_termination_strands_nothing (s : M) (n : Nat) (x : Sess)
+    (hx : AMap.lookup s.sessions n = some x) (ht : x.terminating = true) :
+    (step s (.assign n)).1.owner = s.owner ∧ (step s (.assign n)).1.sessions = s.sessions ∧
+    (step s (.assign n)).1.byIp = s.byIp := by
+  simp only [step, assign, hx, assignLate]
+  cases hf : firstFree s.owner with
+  | none => simp
+  | some a => simp [hx, ht, bounce]
+
+/-- the two interleavings that used to strand an address are ordinary (Valid) histories now and leave nothing behind:
+    an assignment while the termination is parked, and a termination while the assignment is held in the allocator -/
+theorem assign_race_fixed :
     let ops := [Op.create 1 1, .assign 1, .tbegin 0 1, .assign 1, .tresume 0]
-    AMap.lookup (run init ops).sessions 1 = none ∧ AMap.lookup (run init ops).owner 3 = some 1 ∧
-    (step (run init [.create 1 1, .assign 1, .tbegin 0 1, .assign 1]) (.tbegin 1 1)).2 = .busy ∧
-    ¬ Valid init ops := by
-  refine ⟨by decide, by decide, by decide, ?_⟩
-  intro h
-  have := h.2.2.2.1
-  revert this; decide
+    let ops' := [Op.create 1 1, .abegin 3 1, .term 1, .aresume 3]
+    Valid init ops ∧ (run init ops).owner = [] ∧ AMap.lookup (run init ops).sessions 1 = none ∧
+    Valid init ops' ∧ (run init ops').owner = [] ∧ AMap.lookup (run init ops').sessions 1 = none ∧
+    count (run init ops').allocs 2 = 1 ∧ count (run init ops').rel 2 = 1 ∧
+    (step (run init [.create 1 1, .abegin 3 1, .term 1]) (.aresume 3)).2 = .gone := by
+  refine ⟨?_, by decide, by decide, ?_, by decide, by decide, by decide, by decide, by decide⟩
+  · refine ⟨trivial, ?_, trivial, ?_, trivial, trivial⟩ <;> decide
+  · refine ⟨trivial, trivial, trivial, ?_, trivial⟩
+    decide
 
 /-! non-vacuity: a concrete interleaving — A parks, B is refused, A finishes, the address is reused -/
 example : Valid init [.create 1 1, .assign 1, .tbegin 0 1, .tbegin 1 1, .tresume 0, .create 2 2, .assign 2] := by
